@@ -97,8 +97,7 @@ def encrypt_wallet(ctx, P):
 
     def need(pred, labels, oid, text):
         evs = [(e, s, st) for e, s, st in mf.events if pred(e)]
-        if not evs:
-            raise AnalysisBroken("EncryptWallet: no %s call found" % oid)
+        # (a missing call is reported by the success-dominated obligation below)
         for e, state, st in evs:
             miss = [x for x in labels if x not in state]
             ctx.ob("EncryptWallet/%s@L%s" % (oid, st.get("l")), "ORDER", text, not miss, "%s:%s" % (f.file, st.get("l")), {"not_guaranteed_before": miss} if miss else None)
@@ -188,7 +187,7 @@ def spkm_encrypt(ctx, P):
     mf = MustFlow(f, P, marks=[("cleared", is_clear)], branch_marks=[("secret-encrypted", is_es, True)])
     mf.watch = is_w
     mf.run()
-    ctx.floor("Encrypt -> WriteCryptedDescriptorKey", len(mf.events), 1)
+    ctx.ob("SPKM::Encrypt/writes-encrypted-keys", "EFFECT", "DescriptorScriptPubKeyMan::Encrypt stores the encrypted keys with WriteCryptedDescriptorKey", bool(mf.events), f.where)
     outs = {show(call_args(s.expr)[3]) for s in es if len(call_args(s.expr)) == 4}
     for e, state, st in mf.events:
         a = call_args(e)
